@@ -406,6 +406,24 @@ theorem overflow_action_wrap (f : Fmt) (k : Int) :
   | (cases f.signed <;> simp [toNat_pred])
 
 
+/-! ## `Fxp._round`: each configured rule calls the NumPy function of the same name (whose meaning is the model's `roundR`) -/
+
+/-- the NumPy function the model's rounding rule stands for (`np.around` = half to even, `np.fix` = `np.trunc` = toward zero). -/
+def npRoundName : Rounding → String
+  | .trunc => "trunc" | .fix => "fix" | .floor => "floor" | .ceil => "ceil" | .around => "around"
+
+/-- every rounding rule of the configuration is dispatched to the NumPy function of its own name, and to nothing else. -/
+theorem round_table (r : Rounding) : (npRoundName r, npRoundName r) ∈ Gen.roundTable ∧
+    ∀ p ∈ Gen.roundTable, p.1 = p.2 ∧ ∃ r' : Rounding, p.1 = npRoundName r' := by
+  unfold Gen.roundTable
+  constructor
+  · cases r <;> simp [npRoundName]
+  · intro p hp
+    simp only [List.mem_cons, List.mem_nil_iff, or_false] at hp
+    rcases hp with h | h | h | h | h <;> subst h <;> refine ⟨rfl, ?_⟩ <;>
+      first | exact ⟨.around, rfl⟩ | exact ⟨.floor, rfl⟩ | exact ⟨.ceil, rfl⟩ | exact ⟨.fix, rfl⟩ | exact ⟨.trunc, rfl⟩
+
+
 /-! ## The property theorems, restated about the generated rules
 
 `_function_over_one_var` / `_function_over_two_vars` build the result with `Fxp(val, signed=, n_int=, n_frac=)`
